@@ -1,4 +1,5 @@
 import OH.Props.C11
+import OH.Props.TablesC11
 #print axioms OH.Props.C11.default_events
 #print axioms OH.Props.C11.default_ctx_events
 #print axioms OH.Props.C11.default_events_ordered
@@ -17,3 +18,5 @@ import OH.Props.C11
 #print axioms OH.Props.C11.sun_schedule_general
 #print axioms OH.Props.C11.sun_general
 #print axioms OH.Props.C11.sun_wrapped
+#print axioms OH.Props.TablesC11.C11_default_events
+#print axioms OH.Props.TablesC11.C11_default_events_complete
